@@ -1,29 +1,45 @@
 """C08 — write protection: sealed / accessor-protected values cannot be changed."""
-import contextlib
+import threading
 
 import pyglove as pg
 from pgverif.gen import desc as D
 from pgverif.gen import history as H
 from pgverif.gen import ops as O
+from pgverif.gen import values as V
 from pgverif.monitors import tree as TM
 
 TIERS = {
     'quick': dict(shards=4, cases=400, steps=10),
     'thorough': dict(shards=16, cases=800, steps=16),
 }
-RULE = ('case = one tree, a protected node P in it and a list of (target at or below '
+RULE = ('case = one tree (a quarter of them with typed members: value specs, defaults, '
+        'nested typed dicts / lists), a protected node P in it and a list of (target at or below '
         'P, operation with arguments that are valid on an unprotected twin and change '
         'it) plus operations issued at a strict ancestor of P whose written locations '
         'lie at or below P (rebind / sym_rebind / pg.patch with deep paths, pure or '
-        'mixed with writes outside P, rebind[fn], clone(override=...)); each is executed under several protection configurations (P sealed by '
-        'flag / sealed then unsealed / accessor flag off, nested pg.as_sealed and '
-        'pg.allow_writable_accessors scopes with values True/False/None to depth 3) '
-        'and compared with the three-line model "innermost scope value, else object '
-        'flag". Non-trivial = at least 4 operations were expected to be refused and 2 '
-        'to be allowed; distinct by the (operation, configuration, verdict) sequence.')
+        'mixed with writes outside P, rebind[fn], clone(override=...); in typed trees also '
+        'rebind of a typed pg.Dict member to a plain dict that the spec has to complete); '
+        'each is executed '
+        'under several protection configurations. A configuration = a program of flag '
+        'operations on P (seal(), seal(False), P built with sealed=True, P replaced by '
+        'its clone; set_accessor_writable on the written containers) + a scope script: '
+        'pg.as_sealed / pg.allow_writable_accessors scope objects with values '
+        'True/False/None that are created inline, up front, at an earlier point of the '
+        'script or inside another (temporary) scope, and entered / left (normally or by '
+        'an exception) in a well nested order, with the flag operations and the '
+        'operation itself placed anywhere in the script (before, inside, between and '
+        'after the scopes). Reference model: a stack per scope kind (push on enter, pop '
+        'on exit); "innermost scope value, else object flag". The effective override '
+        'is observed with probe values after every enter / exit, the flags of all '
+        'descendants after every flag operation. Non-trivial = at least 4 operations '
+        'were expected to be refused and 2 to be allowed; distinct by the (operation, '
+        'configuration, verdict) sequence.')
 REQUIRED_COUNTERS = ['expected_refused', 'expected_allowed', 'refused_ok', 'allowed_ok',
                      'deep_seal_checks', 'expected_refused_from_above',
-                     'expected_allowed_from_above']
+                     'expected_allowed_from_above', 'scope_state_probes',
+                     'stored_scopes_entered', 'flag_ops_inside_as_sealed_scope',
+                     'deep_seal_checks_inside_as_sealed_scope',
+                     'ops_after_a_scope_was_left']
 ASSUMPTIONS = [
     'operations are issued with arguments that succeed and change an unprotected twin, so protection is the only reason to refuse',
     'descendants of a sealed node are not unsealed individually (the property does not say which flag wins)',
@@ -32,6 +48,10 @@ ASSUMPTIONS = [
     'a batch issued above P that also writes outside P must be refused and leave P unchanged; whether the writes outside P were applied before the refusal is a don\'t-care (the quantifier speaks of operations at P and below)',
     'replacing the slot that holds P (or an ancestor of P) from above does not change P itself: not generated',
     'pg.Dict.update / |= take keys, not key paths, so they cannot address a location below P from above',
+    'seal() / seal(False) / set_accessor_writable change flags, not the value: they are allowed in every scope; a clone of P carries the sealed flag of P (the library passes it to the constructor)',
+    'whether a NEW pg.Object can be constructed inside as_sealed(True) / allow_writable_accessors(False) is a don\'t-care (the property speaks of changing existing values): a refusal there is counted and P is sealed in place instead',
+    'in typed trees the operand values of a call are built under as_sealed(None) + allow_writable_accessors(None) (construction of new values is a don\'t-care, see above), the call itself runs under the scopes of the script; rebind[fn] with a symbolic operand (copied by the callback inside the scopes) is not generated there',
+    'each case runs in a thread of its own, so a scoped override that is not restored cannot outlive the case (scoped overrides are thread local); the case ends after a scope-state violation',
 ]
 
 ACCESSOR_OPS = {'List.__setitem__[int]', 'List.__setitem__[slice]', 'List.__delitem__[int]',
@@ -51,54 +71,270 @@ def innermost(stack):
   return stack[-1] if stack else None
 
 
-@contextlib.contextmanager
-def scope_stacks(sealed_stack, writable_stack):
-  with contextlib.ExitStack() as st:
-    for v in sealed_stack:
-      st.enter_context(pg.as_sealed(v))
-    for v in writable_stack:
-      st.enter_context(pg.allow_writable_accessors(v))
-    yield
+# --- protection configurations ------------------------------------------------
+#
+# cfg = {'flags': [flag operation on P, ...], 'acc_flag': None | bool,
+#        'script': [event, ...]}
+# events (plain data):
+#   ['create', sid, kind, value]   scope object sid := pg.as_sealed(value) /
+#                                  pg.allow_writable_accessors(value)
+#   ['enter', sid]                 sid.__enter__()
+#   ['exit', sid, 'normal'|'exc']  sid.__exit__(...) (with a live exception for 'exc')
+#   ['mark', name]                 'flag:<k>' (k-th flag operation), 'acc', 'op'
+# Scopes are entered and left in a well nested order; a scope object is
+# created once, at or before the point where it is entered.
+
+SCOPE_FN = {'sealed': pg.as_sealed, 'writable': pg.allow_writable_accessors}
+SCOPE_NAME = {'sealed': 'as_sealed', 'writable': 'allow_writable_accessors'}
+TFN = (True, False, None)
+
+
+def gen_flags(rng):
+  """The program of flag operations on the protected node."""
+  r = rng.random()
+  if r >= 0.56:
+    return []
+  prog = (['seal'] if r < 0.28 else ['ctor'] if r < 0.40 else
+          ['seal', 'unseal'] if r < 0.48 else
+          [rng.choice(['clone-deep', 'clone-shallow'])] if r < 0.53 else ['unseal'])
+  while len(prog) < 4 and rng.random() < 0.25:
+    prog.append(rng.choice(['seal', 'unseal', 'clone-deep', 'clone-shallow']))
+  return prog
+
+
+def gen_script(rng, marks, classic):
+  """Scope script around the marks (the last mark is 'op')."""
+  specs = []
+  if rng.random() < 0.45:
+    specs += [('sealed', rng.choice(TFN)) for _ in range(rng.randint(1, 3))]
+  if rng.random() < 0.4:
+    specs += [('writable', rng.choice(TFN)) for _ in range(rng.randint(1, 3))]
+  events = []
+  if classic or not specs:
+    # flags set outside of all scopes, inline scopes nested around the operation
+    events += [['mark', m] for m in marks[:-1]]
+    for k, (kind, v) in enumerate(specs):
+      events += [['create', k, kind, v], ['enter', k]]
+    events.append(['mark', marks[-1]])
+    events += [['exit', k, 'normal'] for k in reversed(range(len(specs)))]
+    return events
+  rng.shuffle(specs)
+  pending, created, stack, marks = list(range(len(specs))), set(), [], list(marks)
+
+  def create(k, under):
+    kind, v = specs[k]
+    if under:            # created inside a temporary scope of the same kind
+      specs.append((kind, rng.choice(TFN)))
+      t = len(specs) - 1
+      events.extend([['create', t, kind, specs[t][1]], ['enter', t],
+                     ['create', k, kind, v], ['exit', t, 'normal']])
+    else:
+      events.append(['create', k, kind, v])
+    created.add(k)
+
+  if rng.random() < 0.2:  # the list of scope objects is built up front
+    for k in pending:
+      create(k, False)
+  while marks:
+    later = [k for k in pending if k not in created]
+    a = rng.choice(['open'] * (3 if pending else 0) + ['close'] * (2 if stack else 0) +
+                   ['mark'] * 3 + ['create'] * (2 if later else 0))
+    if a == 'open':
+      k = pending.pop(0)
+      if k not in created:
+        create(k, False)
+      events.append(['enter', k])
+      stack.append(k)
+    elif a == 'close':
+      events.append(['exit', stack.pop(), 'exc' if rng.random() < 0.15 else 'normal'])
+    elif a == 'mark':
+      events.append(['mark', marks.pop(0)])
+    else:
+      create(rng.choice(later), rng.random() < 0.5)
+  while stack:
+    events.append(['exit', stack.pop(), 'exc' if rng.random() < 0.15 else 'normal'])
+  return events
 
 
 def gen_config(rng):
-  r = rng.random()
-  cfg = {'obj': 'none', 'acc_flag': None, 'sealed_stack': [], 'writable_stack': []}
-  if r < 0.28:
-    cfg['obj'] = 'sealed'
-  elif r < 0.40:
-    cfg['obj'] = 'sealed-at-construction'
-  elif r < 0.48:
-    cfg['obj'] = 'sealed-then-unsealed'
-  if rng.random() < 0.45:
-    cfg['sealed_stack'] = [rng.choice([True, False, None])
-                           for _ in range(rng.randint(1, 3))]
+  cfg = {'flags': gen_flags(rng), 'acc_flag': None}
   if rng.random() < 0.3:
     cfg['acc_flag'] = rng.choice([False, False, True])
-  if rng.random() < 0.4:
-    cfg['writable_stack'] = [rng.choice([True, False, None])
-                             for _ in range(rng.randint(1, 3))]
+  marks = [f'flag:{k}' for k in range(len(cfg['flags']))]
+  marks += ['acc'] if cfg['acc_flag'] is not None else []
+  cfg['script'] = gen_script(rng, marks + ['op'], classic=rng.random() < 0.4)
   return cfg
 
 
+def show_script(cfg):
+  """Compact rendering: s=as_sealed w=allow_writable_accessors, T/F/N value;
+  'new(sT)' scope object created ahead of its entry, '[sT' entered where it is
+  created, '[*sT' a stored scope object entered, ']' left, ']!' left by an
+  exception; flag operations and OP where they are executed."""
+  ev, out, spec = cfg['script'], [], {}
+  for i, e in enumerate(ev):
+    if e[0] == 'create':
+      spec[e[1]] = ('s' if e[2] == 'sealed' else 'w') + str(e[3])[0]
+      if not (i + 1 < len(ev) and ev[i + 1][:2] == ['enter', e[1]]):
+        out.append(f'new({spec[e[1]]})')
+    elif e[0] == 'enter':
+      inline = i > 0 and ev[i - 1][:2] == ['create', e[1]]
+      out.append(('[' if inline else '[*') + spec[e[1]])
+    elif e[0] == 'exit':
+      out.append(']' if e[2] == 'normal' else ']!')
+    elif e[1] == 'op':
+      out.append('OP')
+    elif e[1] == 'acc':
+      out.append(f"accessor_flag={cfg['acc_flag']}")
+    else:
+      out.append(cfg['flags'][int(e[1].split(':')[1])])
+  return ' '.join(out)
+
+
 def cfg_name(cfg):
-  parts = []
-  if cfg['obj'] != 'none':
-    parts.append(cfg['obj'])
-  if cfg['sealed_stack']:
-    parts.append('as_sealed' + str(cfg['sealed_stack']))
-  if cfg['acc_flag'] is not None:
-    parts.append(f"accessor_flag={cfg['acc_flag']}")
-  if cfg['writable_stack']:
-    parts.append('writable_scope' + str(cfg['writable_stack']))
-  return '+'.join(parts) or 'unprotected'
+  name = show_script(cfg)
+  return 'unprotected' if name == 'OP' else name
 
 
-def how_protected(cfg, by):
-  """Mechanism suffix: which kind of protection decided the expectation."""
-  if by == 'sealed':
-    return 'scope' if innermost(cfg['sealed_stack']) is not None else 'flag'
-  return 'scope' if innermost(cfg['writable_stack']) is not None else 'flag'
+class _LeaveScope(Exception):
+  """Raised by the harness inside a scope to leave it by an exception."""
+
+
+class Probes:
+  """Values with known flags that show which scoped override is in force."""
+
+  def __init__(self):
+    self.n = 0
+    self.unsealed = pg.Dict(x=0)
+    self.sealed = pg.Dict(x=0).seal()
+    self.acc_on = pg.Dict(x=0)
+    self.acc_off = pg.Dict(x=0)
+    self.acc_off.set_accessor_writable(False)
+
+  def _refused(self, d, how):
+    self.n += 1
+    try:
+      if how == 'rebind':
+        d.rebind(x=self.n)
+      else:
+        d['x'] = self.n
+    except pg.WritePermissionError:
+      return d.x != self.n
+    return not d.x == self.n
+
+  def check(self, kind, ts, tw):
+    """[(what, expected refused, observed refused)] that disagree with the model
+    (ts / tw = innermost as_sealed / allow_writable_accessors value or None)."""
+    if kind == 'sealed':
+      obs = [('rebind of an unsealed pg.Dict', ts is True,
+              self._refused(self.unsealed, 'rebind')),
+             ('rebind of a sealed pg.Dict', ts is not False,
+              self._refused(self.sealed, 'rebind'))]
+    else:
+      obs = [('item assignment on a pg.Dict with accessor_writable=True',
+              ts is True or tw is False, self._refused(self.acc_on, 'setitem')),
+             ('item assignment on a pg.Dict with accessor_writable=False',
+              ts is True or tw is not True, self._refused(self.acc_off, 'setitem'))]
+    return [o for o in obs if o[1] != o[2]]
+
+
+class ScopeStateViolation(Exception):
+  """The scoped overrides no longer follow the script: the case ends."""
+
+
+def run_script(ctx, cfg, probes, on_mark, witness):
+  """Executes the scope script of `cfg`; calls on_mark(name, stacks) at marks.
+
+  stacks = {'sealed': [...], 'writable': [...]} is the reference model: the
+  values of the scopes that are entered and not left, innermost last."""
+  c = ctx.counters
+  ev = cfg['script']
+  stacks = {'sealed': [], 'writable': []}
+  objs, spec = {}, {}
+  stored_seen = {'sealed': False, 'writable': False}
+  left_any = False
+
+  def mech(kind):
+    # harness fact: was a scope object of this kind entered away from where it
+    # was created (so far in this script)?
+    return f"{SCOPE_NAME[kind]}/{'stored-scope-object' if stored_seen[kind] else 'inline'}"
+
+  def check_state(after, kinds):
+    for kind in kinds:
+      c['scope_state_probes'] += 1
+      bad = probes.check(kind, innermost(stacks['sealed']), innermost(stacks['writable']))
+      if bad:
+        ctx.violation(
+            'scope-override-wrong', mech(kind),
+            f'script {show_script(cfg)}: after {after} the model has as_sealed stack '
+            f"{stacks['sealed']} and allow_writable_accessors stack {stacks['writable']}, "
+            'but ' + '; '.join(f"{w} was {'refused' if o else 'accepted'} (expected "
+                               f"{'refused' if e else 'accepted'})" for w, e, o in bad),
+            witness)
+        raise ScopeStateViolation()
+
+  entered = []
+  try:
+    for i, e in enumerate(ev):
+      if e[0] == 'create':
+        _, sid, kind, v = e
+        ctx.label = 'scope-create'
+        objs[sid] = SCOPE_FN[kind](v)
+        ctx.label = None
+        spec[sid] = (kind, v)
+      elif e[0] == 'enter':
+        sid = e[1]
+        kind, v = spec[sid]
+        if not (i > 0 and ev[i - 1][:2] == ['create', sid]):
+          stored_seen[kind] = True
+          c['stored_scopes_entered'] += 1
+        ctx.label = 'scope-enter'
+        objs[sid].__enter__()
+        ctx.label = None
+        stacks[kind].append(v)
+        entered.append(sid)
+        c['scopes_entered'] += 1
+        check_state(f'entering {SCOPE_NAME[kind]}({v})', (kind,))
+      elif e[0] == 'exit':
+        sid = e[1]
+        kind, v = spec[sid]
+        try:
+          if e[2] == 'exc':
+            c['scopes_left_by_exception'] += 1
+            try:
+              raise _LeaveScope()
+            except _LeaveScope as x:
+              objs[sid].__exit__(type(x), x, x.__traceback__)
+          else:
+            objs[sid].__exit__(None, None, None)
+        except Exception as x:  # pylint: disable=broad-except
+          ctx.violation('scope-exit-raised', mech(kind),
+                        f'script {show_script(cfg)}: leaving {SCOPE_NAME[kind]}({v}) raised '
+                        f'{type(x).__name__}: {x!s:.200}', witness)
+          raise ScopeStateViolation() from x
+        stacks[kind].pop()
+        entered.pop()
+        left_any = True
+        # An as_sealed(True) scope hides the accessor override from observation
+        # until it is left; when no scope is left entered both must be gone.
+        both = (kind == 'sealed' and v is True) or not entered
+        check_state(f'leaving {SCOPE_NAME[kind]}({v})',
+                    ('sealed', 'writable') if both else (kind,))
+      else:
+        if e[1] == 'op':
+          c['ops_after_a_scope_was_left'] += left_any
+          c['ops_inside_scopes'] += bool(stacks['sealed'] or stacks['writable'])
+        on_mark(e[1], stacks)
+  except BaseException:
+    # The case ends here. Leave what is still entered, innermost first, in this
+    # thread: an abandoned scope object would run its exit code whenever it is
+    # garbage collected, possibly in the thread of a later case.
+    for sid in reversed(entered):
+      try:
+        objs[sid].__exit__(None, None, None)
+      except Exception:  # pylint: disable=broad-except
+        pass
+    raise
 
 
 def containers_of(step, root):
@@ -124,7 +360,7 @@ def construct_sealed(node):
   return pg.List([detached(v) for v in node.sym_values()], sealed=True)
 
 
-def gen_above_step(rng, twin, ppath):
+def gen_above_step(rng, twin, ppath, typed=False):
   """A step issued at a strict ancestor A of the protected node P whose written
   locations lie at or below P (optionally mixed with writes elsewhere below A).
 
@@ -137,7 +373,7 @@ def gen_above_step(rng, twin, ppath):
   pnode = D.resolve([twin], 0, ppath)
   if isinstance(anode, pg.Ref) or isinstance(pnode, pg.Ref):
     return None
-  vs = H.ValueSource([twin], (0, apath), p_alias=0.1, p_invalid=0.0, typed=False,
+  vs = H.ValueSource([twin], (0, apath), p_alias=0.1, p_invalid=0.0, typed=typed,
                      allow_root_alias=False)
   g = O.GenEnv(rng, vs, [twin])
   r = rng.random()
@@ -184,18 +420,62 @@ def gen_above_step(rng, twin, ppath):
           'pure': all(H.is_prefix(down, rel) for rel in rels)}
 
 
-def execute(forest, step):
-  """O.execute plus the entry point pg.patch(value, {path: value})."""
+def execute(forest, step, typed=False):
+  """O.execute plus the entry point pg.patch(value, {path: value}).
+
+  In typed trees the operand values are built under scopes that honor the object
+  flags: whether a NEW pg.Object can be constructed inside a restrictive scope
+  is a don't-care, what the call itself does with its arguments is not."""
   a = step['args']
-  if step['op'] == 'rebind' and a.get('api') == 'pg.patch':
-    node = D.resolve(forest, step['at'][0], step['at'][1])
-    try:
-      with O.scopes(step.get('scopes', ())):
-        return 'ok', pg.patch(node, {O.path_key(r, a['style']): D.build(v, forest)
+  node = D.resolve(forest, step['at'][0], step['at'][1])
+
+  def build(d):
+    if not typed:
+      return D.build(d, forest)
+    with pg.as_sealed(None), pg.allow_writable_accessors(None):
+      return D.build(d, forest)
+  try:
+    with O.scopes(step.get('scopes', ())):
+      if step['op'] == 'rebind' and a.get('api') == 'pg.patch':
+        return 'ok', pg.patch(node, {O.path_key(r, a['style']): build(v)
                                      for r, v in a['updates']})
-    except Exception as e:  # pylint: disable=broad-except
-      return 'raise', e
-  return O.execute(forest, step)
+      return 'ok', O.OPS[step['op']].run(node, a, build)
+  except Exception as e:  # pylint: disable=broad-except
+    return 'raise', e
+
+
+def gen_completion_step(rng, twin, below):
+  """rebind of a member whose value spec is a typed pg.Dict to a PLAIN dict
+  that leaves out keys which the spec fills in with their defaults (typed
+  trees): the call has to convert and complete its argument."""
+  cands = []
+  for r, ks, n in H.all_nodes([twin]):
+    if (r, ks) not in below or not isinstance(n, (pg.Object, pg.Dict)):
+      continue
+    for key in n.sym_keys():
+      f = n.sym_attr_field(key)
+      spec = f.value if f is not None else None
+      if (not isinstance(spec, pg.typing.Dict) or spec.schema is None or spec.frozen
+          or not all(isinstance(k, pg.typing.ConstStrKey) for k in spec.schema.fields)):
+        continue
+      if any(not V.needs_value(x.value) for x in spec.schema.fields.values()):
+        cands.append((ks, key, spec))
+  if not cands:
+    return None
+  ks, key, spec = rng.choice(cands)
+  items, left_out = [], 0
+  for k, x in spec.schema.fields.items():
+    if V.needs_value(x.value) or (not x.value.frozen and rng.random() < 0.4):
+      items.append([str(k), ['v', V.value_for(x.value, rng, valid=True)]])
+    else:
+      left_out += 1
+  if not left_out:
+    return None
+  return {'op': 'rebind', 'at': [0, ks],
+          'args': {'updates': [[[key], ['d', items]]], 'opts': {}, 'form': 'dict',
+                   'style': rng.choice(['raw', 'keypath', 'str']),
+                   'api': rng.choice(['rebind', 'sym_rebind', 'pg.patch'])},
+          'scopes': []}
 
 
 def op_name(step):
@@ -209,9 +489,37 @@ def cases(ctx):
 
 
 def run_case(ctx, i):
+  """Runs the case in a thread of its own: scoped overrides are thread local,
+  so whatever a case leaves behind ends with it."""
+  box = []
+
+  def body():
+    try:
+      run_case_in_thread(ctx, i)
+    except ScopeStateViolation:
+      ctx.counters['cases_ended_after_scope_state_violation'] += 1
+    except BaseException as e:  # pylint: disable=broad-except
+      box.append(e)
+  t = threading.Thread(target=body, daemon=True)
+  t.start()
+  t.join()
+  if box:
+    raise box[0]
+
+
+def seal_state_problems(node, expected):
+  return [ks for n, ks in TM.nodes_of(node) if n.is_sealed != expected]
+
+
+def run_case_in_thread(ctx, i):
   rng = ctx.rng
+  probes = Probes()
   c = ctx.counters
-  descs, forest = H.make_forest(rng, n_roots=1, typed=False, depth=3,
+  # A share of the trees has typed members (classes with value specs and
+  # defaults, nested typed dicts / lists); operands are drawn valid for the field.
+  typed = rng.random() < ctx.params.get('p_typed', 0.25)
+  c['typed_trees'] += typed
+  descs, forest = H.make_forest(rng, n_roots=1, typed=typed, depth=3,
                                 classes=('Any2', 'Writable', 'Notifier'))
   desc = descs[0]
   nodes = H.all_nodes(forest)
@@ -225,14 +533,22 @@ def run_case(ctx, i):
     above = bool(ppath) and rng.random() < ctx.params.get('p_above', 0.35)
     if above:
       # issued ABOVE the protected node, written locations at or below it
-      step = gen_above_step(rng, twin, ppath)
+      step = gen_above_step(rng, twin, ppath, typed)
+    elif typed and rng.random() < 0.2:
+      step = gen_completion_step(rng, twin, below)
+      c['completion_steps'] += step is not None
     else:
       step = H.gen_step(rng, [twin], effects=('mutate', 'new'), p_scope={},
                         op_filter=lambda o: o.name != 'json-roundtrip',
-                        value_source_kwargs=dict(p_alias=0.1, p_invalid=0.0, typed=False,
+                        value_source_kwargs=dict(p_alias=0.1, p_invalid=0.0, typed=typed,
                                                  allow_root_alias=False),
                         node_filter=lambda x: (x[0], x[1]) in below)
     if step is None or not tnodes:
+      continue
+    if typed and step['op'] == 'rebind[fn]' and step['args']['v'][0] != 'v':
+      # the callback copies a symbolic operand inside the scopes: construction
+      # of a new typed value there is a don't-care (see ASSUMPTIONS)
+      c['skipped_symbolic_operand_copied_in_scope'] += 1
       continue
     if step['op'] == 'rebind' and not above:
       step['args']['opts'] = {}
@@ -242,7 +558,7 @@ def run_case(ctx, i):
     tp = D.resolve([twin], 0, ppath)
     tp_before = js(tp)
     with pg.allow_writable_accessors(True):
-      tstatus, tres = execute([twin], step)
+      tstatus, tres = execute([twin], step, typed)
     if tstatus != 'ok':
       c['skipped_invalid_on_twin'] += 1
       continue
@@ -260,141 +576,197 @@ def run_case(ctx, i):
       c['issued_above_mixed_batch'] += (mutating and not pure)
     for _ in range(3):
       cfg = gen_config(rng)
-      root = D.build(desc)
-      pnode = D.resolve([root], 0, ppath)
-      target = D.resolve([root], 0, step['at'][1])
-      if cfg['obj'] == 'sealed-at-construction':
-        if isinstance(pnode, pg.Ref):
-          cfg['obj'] = 'sealed'
-        else:
-          ctx.label = 'construct-sealed'
-          new_p = construct_sealed(pnode)
-          if ppath:
-            parent = D.resolve([root], 0, ppath[:-1])
-            with pg.allow_writable_accessors(True):
-              parent.rebind({ppath[-1]: new_p}, raise_on_no_change=False)
-          else:
-            root = new_p
-          ctx.label = None
-          pnode = D.resolve([root], 0, ppath)
-          target = D.resolve([root], 0, step['at'][1])
-          c['deep_seal_checks'] += 1
-          c['sealed_at_construction'] += 1
-          unsealed = [ks for n, ks in TM.nodes_of(pnode) if not n.is_sealed]
-          if pnode is not new_p:
-            c['sealed_node_copied_on_insert'] += 1
-          elif unsealed:
-            ctx.violation('seal-not-deep', type(pnode).__name__ + '@construction',
-                          f'{type(pnode).__name__}(..., sealed=True): descendants '
-                          f'{unsealed[:5]} are not sealed',
-                          {'tree': D.show(desc), 'protected': ppath})
-      if cfg['obj'] in ('sealed', 'sealed-then-unsealed'):
-        pnode.seal()
-        c['deep_seal_checks'] += 1
-        unsealed = [ks for n, ks in TM.nodes_of(pnode) if not n.is_sealed]
-        if unsealed:
-          ctx.violation('seal-not-deep', type(pnode).__name__,
-                        f'after {type(pnode).__name__}.seal() descendants {unsealed[:5]} '
-                        'are not sealed', {'tree': D.show(desc), 'protected': ppath})
-        if cfg['obj'] == 'sealed-then-unsealed':
-          pnode.seal(False)
-          still = [ks for n, ks in TM.nodes_of(pnode) if n.is_sealed]
-          if still:
-            ctx.violation('unseal-not-deep', type(pnode).__name__,
-                          f'after seal(False) descendants {still[:5]} are still sealed',
-                          {'tree': D.show(desc), 'protected': ppath})
-      if cfg['acc_flag'] is not None:
-        for n in containers_of(step, root):
-          n.set_accessor_writable(cfg['acc_flag'])
-      conts = containers_of(step, root)
-      sc = innermost(cfg['sealed_stack'])
-      # Every target is at or below the protected node, so whether it is sealed
-      # follows from the configuration (not from the flags the library reports).
-      model_sealed = cfg['obj'] in ('sealed', 'sealed-at-construction')
-      eff_sealed = sc if sc is not None else model_sealed
-      wc = innermost(cfg['writable_stack'])
-      eff_writable = wc if wc is not None else all(n.accessor_writable for n in conts)
-      r_before = js(root)
-      p_before = js(pnode)
-      ctx.label = step['op']
-      with scope_stacks(cfg['sealed_stack'], cfg['writable_stack']):
-        status, res = execute([root], step)
-      ctx.label = None
-      r_after = js(root)
-      p_after = js(pnode)           # the protected node by identity
-      c['op:' + op_name(step)] += 1
-      ctx.seen('configs', cfg_name(cfg))
-      where = (f"{O.show_step(step)} under {cfg_name(cfg)} (protected node at "
-               f"{ppath}, tree {D.show(desc)[:300]})")
+      st = {'root': D.build(desc), 'sealed': False, 'verdict': None}
+      st['pnode'] = D.resolve([st['root']], 0, ppath)
       witness = {'tree': D.show(desc), 'protected': ppath, 'step': O.show_step(step),
                  'config': cfg}
-      verdict = None
-      tree_problems = TM.tree_ok([root])
-      if tree_problems:
-        ctx.violation('tree-broken', step['op'],
-                      f'{where}\n{tree_problems[0]}', witness)
-      if not mutating:
-        if r_after != r_before:
-          ctx.violation('nonmutating-changed-tree', step['op'], where, witness)
-        verdict = 'new'
-      elif eff_sealed:
-        n_ref += 1
-        c['expected_refused'] += 1
-        mech = f"{op_name(step)}/{how_protected(cfg, 'sealed')}"
-        ok = True
-        c['expected_refused_from_above'] += above
-        if status == 'ok':
-          ctx.violation('sealed-write-succeeded', mech, where, witness); ok = False
-        elif not isinstance(res, pg.WritePermissionError):
-          ctx.violation('sealed-wrong-error', mech,
-                        f'{where}\nraised {type(res).__name__}: {res!s:.200}', witness); ok = False
-        if p_after != p_before:
-          ctx.violation('sealed-tree-changed', mech,
-                        f'{where}\nprotected node before={p_before[:300]}\n'
-                        f'protected node after ={p_after[:300]}', witness); ok = False
-        elif r_after != r_before:
-          if pure:
-            ctx.violation('sealed-tree-changed', mech,
-                          f'{where}\nbefore={r_before[:300]}\nafter ={r_after[:300]}', witness); ok = False
+
+      def replace_protected(new_p, stacks, st=st):
+        """Stores new_p where P is (the enclosing nodes are not protected)."""
+        if ppath:
+          parent = D.resolve([st['root']], 0, ppath[:-1])
+          ctx.label = 'insert-protected-node'
+          with pg.as_sealed(False if innermost(stacks['sealed']) else None):
+            with pg.allow_writable_accessors(True):
+              parent.rebind({ppath[-1]: new_p}, raise_on_no_change=False)
+          ctx.label = None
+        else:
+          st['root'] = new_p
+        st['pnode'] = D.resolve([st['root']], 0, ppath)
+        if st['pnode'] is not new_p:
+          c['protected_node_copied_on_insert'] += 1
+
+      def deep_check(node, clause, how, stacks, what, st=st, cfg=cfg, witness=witness):
+        inside = bool(stacks['sealed'])
+        c['deep_seal_checks'] += 1
+        c['deep_seal_checks_inside_as_sealed_scope'] += inside
+        wrong = seal_state_problems(node, st['sealed'])
+        if wrong:
+          ctx.violation(clause, O.node_kind(node) + how + ('@as_sealed' if inside else ''),
+                        f'{what} (script {show_script(cfg)}, as_sealed stack '
+                        f"{stacks['sealed']}): nodes {wrong[:5]} of the value have "
+                        f"is_sealed={not st['sealed']}", witness)
+          st['verdict'] = 'flag-violation'     # the configuration ends here
+
+      def flag_op(name, stacks, st=st):
+        pnode = st['pnode']
+        c['flag_ops'] += 1
+        c['flag_ops_inside_as_sealed_scope'] += bool(stacks['sealed'])
+        c['flag_ops_inside_writable_scope'] += bool(stacks['writable'])
+        cls = type(pnode).__name__
+        # constructing NEW objects (also as part of a clone) inside such a scope
+        # is a don't-care
+        restrictive = (innermost(stacks['sealed']) is True
+                       or innermost(stacks['writable']) is False)
+        if isinstance(pnode, pg.Ref) and name != 'unseal':
+          name = 'seal'
+        if name == 'ctor':
+          c['sealed_at_construction'] += 1
+          ctx.label = 'construct-sealed'
+          try:
+            new_p = construct_sealed(pnode)
+          except pg.WritePermissionError:
+            if not restrictive:
+              raise
+            c['dont_care_object_construction_refused_in_scope'] += 1
+            name = 'seal'
           else:
-            c['dont_care_mixed_batch_applied_outside_protected'] += 1
-        c['refused_ok'] += ok
-        verdict = 'refused'
-      elif step['op'] in ACCESSOR_OPS and not eff_writable:
-        n_ref += 1
-        c['expected_refused'] += 1
-        mech = f"{op_name(step)}/{how_protected(cfg, 'writable')}"
-        ok = True
-        if status == 'ok':
-          ctx.violation('accessor-write-succeeded', mech, where, witness); ok = False
-        elif not isinstance(res, pg.WritePermissionError):
-          ctx.violation('accessor-wrong-error', mech,
-                        f'{where}\nraised {type(res).__name__}: {res!s:.200}', witness); ok = False
-        if r_after != r_before:
-          ctx.violation('accessor-tree-changed', mech, where, witness); ok = False
-        c['refused_ok'] += ok
-        verdict = 'refused-accessor'
-      elif step['op'] in ACCESSOR_OPS or step['op'] in REBIND_OPS or eff_writable:
-        # effectively writable: must behave exactly as on the unprotected twin
-        n_all += 1
-        c['expected_allowed'] += 1
-        c['expected_allowed_from_above'] += above
-        mech = op_name(step)
-        ok = True
-        if status != 'ok':
-          ctx.violation('unprotected-refused', mech,
-                        f'{where}\nraised {type(res).__name__}: {res!s:.200}', witness); ok = False
-        elif r_after != twin_after:
-          ctx.violation('unprotected-differs', mech,
-                        f'{where}\nexpected={twin_after[:300]}\ngot     ={r_after[:300]}', witness); ok = False
-        c['allowed_ok'] += ok
-        verdict = 'allowed'
-      else:
-        c['dont_care_non_accessor_mutator_while_accessors_disabled'] += 1
-        if status == 'raise' and r_after != r_before:
-          ctx.violation('refused-but-changed', step['op'], where, witness)
-        verdict = 'dont-care'
-      log.append((op_name(step), cfg_name(cfg), verdict))
+            ctx.label = None
+            st['sealed'] = True
+            deep_check(new_p, 'seal-not-deep', '@construction', stacks,
+                       f'{cls}(..., sealed=True)')
+            replace_protected(new_p, stacks)
+            return
+        ctx.label = name
+        if name == 'seal':
+          pnode.seal()
+          st['sealed'] = True
+          deep_check(pnode, 'seal-not-deep', '', stacks, f'after {cls}.seal()')
+        elif name == 'unseal':
+          pnode.seal(False)
+          st['sealed'] = False
+          deep_check(pnode, 'unseal-not-deep', '', stacks, f'after {cls}.seal(False)')
+        else:
+          c['protected_node_cloned'] += 1
+          try:
+            new_p = pnode.clone(deep=name == 'clone-deep')
+          except pg.WritePermissionError:
+            if not restrictive:
+              raise
+            c['dont_care_object_construction_refused_in_scope'] += 1
+            ctx.label = None
+            return
+          ctx.label = None
+          deep_check(new_p, 'seal-not-deep' if st['sealed'] else 'unseal-not-deep',
+                     '@clone', stacks,
+                     f"clone(deep={name == 'clone-deep'}) of a {cls} with "
+                     f"is_sealed={st['sealed']}")
+          replace_protected(new_p, stacks)
+        ctx.label = None
+
+      def on_mark(name, stacks, st=st, cfg=cfg):
+        if st['verdict'] is not None:
+          return
+        if name.startswith('flag:'):
+          flag_op(cfg['flags'][int(name[5:])], stacks)
+        elif name == 'acc':
+          for n in containers_of(step, st['root']):
+            n.set_accessor_writable(cfg['acc_flag'])
+        else:
+          check_op(stacks)
+
+      def check_op(stacks, st=st, cfg=cfg, witness=witness):
+        nonlocal n_ref, n_all
+        root, pnode = st['root'], st['pnode']
+        conts = containers_of(step, root)
+        sc = innermost(stacks['sealed'])
+        # Every target is at or below the protected node, so whether it is sealed
+        # follows from the configuration (not from the flags the library reports).
+        eff_sealed = sc if sc is not None else st['sealed']
+        wc = innermost(stacks['writable'])
+        eff_writable = wc if wc is not None else all(n.accessor_writable for n in conts)
+        by = {'sealed': 'scope' if sc is not None else 'flag',
+              'writable': 'scope' if wc is not None else 'flag'}
+        r_before = js(root)
+        p_before = js(pnode)
+        ctx.label = step['op']
+        status, res = execute([root], step, typed)
+        ctx.label = None
+        r_after = js(root)
+        p_after = js(pnode)           # the protected node by identity
+        c['op:' + op_name(step)] += 1
+        where = (f"{O.show_step(step)} under {cfg_name(cfg)} (protected node at "
+                 f"{ppath}, tree {D.show(desc)[:300]})")
+        tree_problems = TM.tree_ok([root])
+        if tree_problems:
+          ctx.violation('tree-broken', step['op'],
+                        f'{where}\n{tree_problems[0]}', witness)
+        if not mutating:
+          if r_after != r_before:
+            ctx.violation('nonmutating-changed-tree', step['op'], where, witness)
+          st['verdict'] = 'new'
+        elif eff_sealed:
+          n_ref += 1
+          c['expected_refused'] += 1
+          mech = f"{op_name(step)}/{by['sealed']}"
+          ok = True
+          c['expected_refused_from_above'] += above
+          if status == 'ok':
+            ctx.violation('sealed-write-succeeded', mech, where, witness); ok = False
+          elif not isinstance(res, pg.WritePermissionError):
+            ctx.violation('sealed-wrong-error', mech,
+                          f'{where}\nraised {type(res).__name__}: {res!s:.200}', witness); ok = False
+          if p_after != p_before:
+            ctx.violation('sealed-tree-changed', mech,
+                          f'{where}\nprotected node before={p_before[:300]}\n'
+                          f'protected node after ={p_after[:300]}', witness); ok = False
+          elif r_after != r_before:
+            if pure:
+              ctx.violation('sealed-tree-changed', mech,
+                            f'{where}\nbefore={r_before[:300]}\nafter ={r_after[:300]}', witness); ok = False
+            else:
+              c['dont_care_mixed_batch_applied_outside_protected'] += 1
+          c['refused_ok'] += ok
+          st['verdict'] = 'refused'
+        elif step['op'] in ACCESSOR_OPS and not eff_writable:
+          n_ref += 1
+          c['expected_refused'] += 1
+          mech = f"{op_name(step)}/{by['writable']}"
+          ok = True
+          if status == 'ok':
+            ctx.violation('accessor-write-succeeded', mech, where, witness); ok = False
+          elif not isinstance(res, pg.WritePermissionError):
+            ctx.violation('accessor-wrong-error', mech,
+                          f'{where}\nraised {type(res).__name__}: {res!s:.200}', witness); ok = False
+          if r_after != r_before:
+            ctx.violation('accessor-tree-changed', mech, where, witness); ok = False
+          c['refused_ok'] += ok
+          st['verdict'] = 'refused-accessor'
+        elif step['op'] in ACCESSOR_OPS or step['op'] in REBIND_OPS or eff_writable:
+          # effectively writable: must behave exactly as on the unprotected twin
+          n_all += 1
+          c['expected_allowed'] += 1
+          c['expected_allowed_from_above'] += above
+          # in typed trees the call also converts / completes its arguments
+          mech = step['op'] + '+typed' if typed else op_name(step)
+          ok = True
+          if status != 'ok':
+            ctx.violation('unprotected-refused', mech,
+                          f'{where}\nraised {type(res).__name__}: {res!s:.200}', witness); ok = False
+          elif r_after != twin_after:
+            ctx.violation('unprotected-differs', mech,
+                          f'{where}\nexpected={twin_after[:300]}\ngot     ={r_after[:300]}', witness); ok = False
+          c['allowed_ok'] += ok
+          st['verdict'] = 'allowed'
+        else:
+          c['dont_care_non_accessor_mutator_while_accessors_disabled'] += 1
+          if status == 'raise' and r_after != r_before:
+            ctx.violation('refused-but-changed', step['op'], where, witness)
+          st['verdict'] = 'dont-care'
+
+      ctx.seen('configs', cfg_name(cfg))
+      run_script(ctx, cfg, probes, on_mark, witness)
+      log.append((op_name(step), cfg_name(cfg), st['verdict']))
   if n_ref >= 4 and n_all >= 2:
     ctx.mark_nontrivial(tuple(log))
   if i < 2:
